@@ -289,3 +289,6 @@ def run(ctx, chk, tier):
         else:
             chk.violation("R04.5", qn, "delegates-to:" + fn, show(rets[0].value, 300), show(vt, 300), ctx.where(qn))
     chk.floor("R04.5", 10 + 37, "10 metric aliases + 37 ConfusionMatrix methods")
+    # hidden per-object state: a memo in the metric methods / decorator must be determined by its key (all arguments, keyword ones included)
+    from . import c10
+    c10.purity(ctx, chk, only=("ConfusionMatrix.", "metrics.", "utils.binomial_ci"), strict=False)
